@@ -12,7 +12,7 @@ import (
 func init() {
 	register(&propInfo{
 		ID:          "C13",
-		Explanation: "Path analysis of every reflective call into user code in the library: (R13.1) each reflect.Value.Call/CallSlice lies in a function that, on every path to the call, has registered a deferred function literal which calls recover() directly, never re-panics, never type-asserts the recovered value unsafely, and — whenever the recovered value is non-nil, with no further condition — assigns a non-nil error to the function's error result, which is what the function returns; (R13.2) every caller of such a function tests that error and, when it is non-nil, emits an error reply and returns without reaching the success reply; (R13.3) user code is never invoked reflectively from any other place (no goroutine runs handler code outside that frame). (R13.5) nothing acquired before the user call (semaphore send/receive, Lock, WaitGroup.Add, atomic add) is released only after it in straight-line code of the recovering function. R13.2 also requires the value results of the protected call to be indexed only where its error is known nil. (R13.6) the HTTP client reads error replies in full. (R13.7) no pooled memory is used after it was handed back. (R13.8) the client re-sends only on the temporary-connection code.",
+		Explanation: "Path analysis of every reflective call into user code in the library: (R13.1) each reflect.Value.Call/CallSlice lies in a function that, on every path to the call, has registered a deferred function literal which calls recover() directly, never re-panics, never type-asserts the recovered value unsafely, and — whenever the recovered value is non-nil, with no further condition — assigns a non-nil error to the function's error result, which is what the function returns; (R13.2) every caller of such a function tests that error and, when it is non-nil, emits an error reply and returns without reaching the success reply; (R13.3) user code is never invoked reflectively from any other place (no goroutine runs handler code outside that frame). (R13.5) nothing acquired before the user call (semaphore send/receive, Lock, WaitGroup.Add, atomic add) is released only after it in straight-line code of the recovering function. R13.2 also requires the value results of the protected call to be indexed only where its error is known nil. (R13.6) the HTTP client reads error replies in full. (R13.7) no pooled memory is used after it was handed back. (R13.8) the client re-sends only on the temporary-connection code. (R13.9) no library mutex stays locked on a return path; (R13.10) the recovering function makes no call through a function value not known to be non-nil.",
 		NotDecided:  "Panics raised on goroutines the handler itself starts, panics in user-supplied param codecs / tracers / error marshalers (outside the property), and that other calls are unaffected in every schedule (follows from goroutine-per-call structure, not explored).",
 		Assumptions: []string{
 			"Go semantics: recover() only stops a panic when called directly by the deferred function",
@@ -67,6 +67,10 @@ func runC13(c *Ctx) {
 			c.ok("R13.6", "HTTP response bodies", "-", "read without a cap")
 		}
 	}
+	c.rule("R13.9", "a panicking call still gets its error reply: no library mutex stays locked on a return path (a lock leaked by the panic-reporting code blocks every later panicking call inside its recover)")
+	c.lockLeakRule("R13.9")
+	c.rule("R13.10", "the function that recovers a handler's panic cannot panic itself: it makes no call through a function value (a hook) that is not known to be non-nil there — a nil hook on one construction site turns a recovered panic into a crash of the process")
+	c.recoverMakesNoUnguardedDynamicCall("R13.10")
 	c.rule("R13.8", "the reply to a panicking call is final: the client re-sends only on the wire's temporary-connection code (the panic reply carries code 0), so the handler is not run again and the caller gets its answer")
 	c.retryGateRule("R13.8")
 	c.ruleOpt("R13.7", "the error reply for a panicking call is not encoded into pooled memory that is handed back before it is written")
@@ -582,4 +586,72 @@ func (c *Ctx) panicLeak(rule string, fn *ssa.Function, user ssa.Instruction) {
 		}
 	}
 	c.ok(rule, construct, c.ipos(user), "nothing acquired before the user call is released after it outside a deferred function")
+}
+
+// recoverMakesNoUnguardedDynamicCall: R13.10. In every function literal (or named function) that is
+// deferred and calls recover() directly, each call through a function value is dominated by a test
+// that the value is non-nil.
+func (c *Ctx) recoverMakesNoUnguardedDynamicCall(rule string) {
+	p := c.P
+	n := 0
+	for _, fn := range p.Funcs {
+		if !p.inTree(fn) {
+			continue
+		}
+		recovers := false
+		allInstrsRaw(fn, func(in ssa.Instruction) {
+			if ci, ok := in.(*ssa.Call); ok {
+				if b, ok := ci.Common().Value.(*ssa.Builtin); ok && b.Name() == "recover" {
+					recovers = true
+				}
+			}
+		})
+		if !recovers {
+			continue
+		}
+		n++
+		construct := fmt.Sprintf("%s: calls made while recovering", fname(fn))
+		var bad ssa.Instruction
+		allInstrsRaw(fn, func(in ssa.Instruction) {
+			ci, ok := in.(ssa.CallInstruction)
+			if !ok || ci.Common().IsInvoke() {
+				return
+			}
+			v := ci.Common().Value
+			switch v.(type) {
+			case *ssa.Function, *ssa.Builtin, *ssa.MakeClosure:
+				return
+			}
+			if _, isSig := v.Type().Underlying().(*types.Signature); !isSig {
+				return
+			}
+			guarded := false
+			for _, cf := range expandConds(impliedConds(in.Block())) {
+				bo, ok := cf.Cond.(*ssa.BinOp)
+				if !ok || (bo.Op != token.NEQ && bo.Op != token.EQL) {
+					continue
+				}
+				other := bo.X
+				if isNilConst(bo.X) {
+					other = bo.Y
+				} else if !isNilConst(bo.Y) {
+					continue
+				}
+				if cf.True == (bo.Op == token.NEQ) && sameVal(other, v) {
+					guarded = true
+				}
+			}
+			if !guarded {
+				bad = in
+			}
+		})
+		if bad != nil {
+			c.bad(rule, construct, c.ipos(bad), "the recovering function calls a function value that may be nil (a hook filled on one construction site but not on another): the call panics inside the deferred function, after recover() has been used up — the process dies instead of the call being answered with an error")
+		} else {
+			c.ok(rule, construct, p.pos(fn.Pos()), "only static calls (or calls behind a nil test)")
+		}
+	}
+	if n == 0 {
+		c.und(rule, "recovering functions", "-", "none found")
+	}
 }
